@@ -127,6 +127,17 @@ def enumerate_cases(tier: str):
                      f'{{"1": {{"node_id": 1, "node_type": 17, "protocol_version": "2.0", "children": {{"{big}": {{"child_id": 1, "child_type": 1}}}}}}}}',
                      f"{big}.5", f"1e{big[:6]}"):
             yield {"kind": "content", "origin": "long-number", "data": text}
+    for depth in (100, 300, 600, 900, 1200, 1450, 2500, 20000):
+        # well-formed JSON, nested deeply at each level of a record
+        arr = "[" * depth + "]" * depth
+        obj = '{"a":' * depth + "1" + "}" * depth
+        for inner in (arr, obj):
+            yield {"kind": "content", "origin": "deep-valid", "data": inner}
+            yield {"kind": "content", "origin": "deep-valid", "data": '{"1": ' + inner + "}"}
+            yield {"kind": "content", "origin": "deep-valid", "data": '{"1": {"node_id": 1, "node_type": 17, "protocol_version": "2.0", "extra": ' + inner + "}}"}
+            yield {"kind": "content", "origin": "deep-valid", "data": '{"1": {"node_id": 1, "node_type": 17, "protocol_version": "2.0", "sketch_name": ' + inner + "}}"}
+            yield {"kind": "content", "origin": "deep-valid", "data": '{"1": {"sensor_id": 1, "type": 17, "protocol_version": "2.0", "children": {"1": ' + inner + "}}}"}
+            yield {"kind": "content", "origin": "deep-valid", "data": '{"1": {"node_id": 1, "node_type": 17, "protocol_version": "2.0", "children": {"1": {"child_id": 1, "child_type": 1, "values": {"1": ' + inner + "}}}}}"}
     for depth in (1000, 100000):
         yield {"kind": "content", "origin": "deep", "data": "[" * depth}
         yield {"kind": "content", "origin": "deep", "data": '{"1":' * depth}
